@@ -2105,6 +2105,8 @@ func CheckMultisigPar(curve elliptic.Curve, h []byte, pkeys [][]byte, sigs [][]b
 	const workerCount = 3
 	tasks := make(chan task, 2)
 	results := make(chan verify, len(sigs))
+	// Workers are released on any exit, a malformed key makes bytesToPublicKey panic.
+	defer close(tasks)
 	for range workerCount {
 		go worker(tasks, results)
 	}
@@ -2156,8 +2158,6 @@ loop:
 		taskCount++
 		tasks <- task{pub: bytesToPublicKey(pkeys[nextKey], curve), signum: nextSig}
 	}
-
-	close(tasks)
 
 	return sigok
 }
